@@ -692,8 +692,24 @@ def _times_ok(i):
 def shrink(case):
     """candidates of _shrink_raw that stay inside the regime (an out-of-regime candidate would be code 3)"""
     for c in _shrink_raw(case):
-        if c['kind'] != 'ccg' or _times_ok(c['inp']):
+        if (c['kind'] != 'ccg' or _times_ok(c['inp'])) and _hist_ok(c['inp']):
             yield c
+
+
+def _hist_ok(i):
+    """every earlier call of the history is legal on its own: contents of the right length, ids distinct and
+    non-negative, that call's labels among that call's ids"""
+    for h in i.get('hist') or ():
+        ids = h['ids'] if h['ids'] is not None else i['ids']
+        lab = h['lab'] if h['lab'] is not None else i['lab']
+        if len(lab) != len(i['lab']) or (ids is None) != (i['ids'] is None):
+            return False
+        if ids is not None and (len(ids) != len(i['ids']) or len(set(ids)) != len(ids) or min(ids, default=0) < 0
+                                or not set(lab) <= set(ids)):
+            return False
+        if min(lab, default=0) < 0:
+            return False
+    return True
 
 
 def _shrink_raw(case):
